@@ -169,6 +169,10 @@ func checkTotal(t byte, b []byte, kind string) {
 			out.Violation("c04:reuse-fields:"+tn, "decoded into a message object that was decoded into before: fields differ from those a fresh object reports: "+d, detail2)
 			break
 		}
+		if pm, ok := ro.(*message.PublishMessage); ok && pm.QoS() == 0 && pm.PacketID() != 0 {
+			out.Violation("c04:reuse-stale-identifier:PUBLISH", fmt.Sprintf("a QoS 0 PUBLISH decoded into a message object that was decoded into before: PacketID() reports %d, which is no part of this packet (it belongs to %s)", pm.PacketID(), prevIn), detail2)
+			break
+		}
 		for name, f := range fieldSlices(ro) {
 			if !inside(f, in2, n2) {
 				out.Violation("c04:reuse-field-outside:"+tn, fmt.Sprintf("field %s (%d bytes) reaches outside the %d bytes of the decoded packet", name, len(f), n2), detail2)
